@@ -110,6 +110,16 @@ class C20(Prop):
         if rc != 0 or not outs or outs[0] != "install-err intact=true drops_after=1":
             return [("install", "RecoverableRecorder::install with a global recorder already set did not hand the original recorder back intact",
                      dict(observed=outs, stderr=err[-500:]))]
+        # free-running stress (no scheduler): catches changes whose new shared accesses have no yield point
+        rounds = 40 if ctx["tier"] == "quick" else 400
+        lines = ["STRESS %d %d %s" % (2 + i % 5, 4000 + 1000 * (i % 7), "RD"[i % 2]) for i in range(rounds)]
+        rc, outs, err = run_impl(ctx["binpath"], lines, timeout=900)
+        ctx["coverage"]["stress_rounds"] = rounds
+        ctx["coverage"]["stress_results"] = outs[:2]
+        fails = [o for o in outs if not o.startswith("stress ok")]
+        if rc != 0 or len(outs) != rounds or fails:
+            return [("stress", "free-running stress of RecoverableRecorder violated the property: " + (fails[0] if fails else "driver failed: " + err[-300:]),
+                     dict(command="echo 'STRESS 4 400 R' | .cache/target/release/c20", observed=fails[:5]))]
         return []
 
 
